@@ -56,16 +56,17 @@ SEM_HEADER = """From Coq Require Import List NArith ZArith Bool.
 From Acg Require Import Base.Str Model.JsonSchemaSem.
 Import ListNotations.
 Open Scope N_scope.
-Fixpoint find_hit (tbl : list ((text * text) * bool)) (p s : text) : bool :=
-  match tbl with
-  | [] => false
-  | ((p', s'), b) :: r => if text_eqb p p' && text_eqb s s' then b else find_hit r p s
+(* regex oracle: pattern -> the strings of the document it is found in *)
+Definition find_hit (tbl : list (text * list text)) (p s : text) : bool :=
+  match lookup p tbl with
+  | Some l => mem_text s l
+  | None => false
   end.
 """
 SEM_TAIL = """
 (* case: definition name, document, regex oracle table, verdict of the independent
    validator (true = accepted), all [$ref] of the real schema resolve *)
-Definition case_ok (c : nat * text * json * list ((text * text) * bool) * bool) : bool :=
+Definition case_ok (c : nat * text * json * list (text * list text) * bool) : bool :=
   match c with
   | (k, name, doc, tbl, accepted) =>
       match validates (find_hit tbl) (nth k all_defs []) 300 (Schema [KRef name]) doc with
@@ -73,14 +74,14 @@ Definition case_ok (c : nat * text * json * list ((text * text) * bool) * bool) 
       | None => false
       end
   end.
-Fixpoint bad_from (i : nat) (cs : list (nat * text * json * list ((text * text) * bool) * bool)) : list nat :=
+Fixpoint bad_from (i : nat) (cs : list (nat * text * json * list (text * list text) * bool)) : list nat :=
   match cs with
   | [] => []
   | c :: r => if case_ok c then bad_from (S i) r else i :: bad_from (S i) r
   end.
 Definition bad := bad_from 0.
 """
-SEM_TYPE = "nat * text * json * list ((text * text) * bool) * bool"
+SEM_TYPE = "nat * text * json * list (text * list text) * bool"
 
 
 # ------------------------------------------------------------------------------------
@@ -322,8 +323,20 @@ def _brief(x: Any, n: int = 1500) -> Any:
 
 
 def _tick(ctx, label, t0):
-    ctx.coverage.setdefault("timing_s", {})[label] = round(time.time() - t0, 1)
+    tm = ctx.coverage.setdefault("timing_s", {})
+    tm[label] = round(tm.get(label, 0.0) + time.time() - t0, 1)
     return time.time()
+
+
+def _cleanup(ctx, name, keep):
+    """Remove the generated cases files of a stream (kept when it found a disagreement)."""
+    if keep:
+        return
+    for pth in ctx.work.glob(f"{name}_*.v"):
+        try:
+            pth.unlink()
+        except OSError:
+            pass
 
 
 def run(ctx: lib.Ctx, prop: str) -> None:
@@ -332,257 +345,294 @@ def run(ctx: lib.Ctx, prop: str) -> None:
     want11 = prop == "C11"
     n_models = ctx.n(4, 16)
     per_class = ctx.n(5, 8)
-    models: List[Tuple[str, MetaModel, bool]] = [(name, mm, False) for name, mm in corpus(rng)]
     prof = jg.profile()
-    for k in range(n_models):
-        astral = k % 4 == 3
-        rmm = mmg.random_metamodel(rng, prof)
-        if k % 2 == 1:
-            shuffle_cprims(rmm, rng)
-        models.append((f"random-{k}", rmm, astral))
 
-    entries, metas = [], []
-    for name, mm, astral in models:
-        is_corpus = not name.startswith("random-")
-        insts, meta = _instances(mm, rng, 3 if is_corpus else per_class, astral, 14 if is_corpus else 5)
-        entries.append({"model_text": mmg.render_source(mm),
-                        "snippets_jsonschema": mmg.synth_snippets(mm, "jsonschema"),
-                        "snippets_python": mmg.synth_snippets(mm, "python"), "instances": insts})
-        metas.append((insts, meta))
-    results: List[Dict[str, Any]] = []
-    B = 12
-    for k in range(0, len(entries), B):
-        results += lib.impl_call("jsonschema_run.py", {"mode": "build", "models": entries[k:k + B]},
-                                 timeout=3000)
+    def batches():
+        """Quick: one batch (witness models + random ones). Thorough: the witness models,
+        then the random models six at a time -- a batch is generated, run, checked inside
+        Coq and dropped before the next one is built (bounded memory, small Coq files)."""
+        first: List[Tuple[str, MetaModel, bool]] = [(name, mm, False) for name, mm in corpus(rng)]
+        group = n_models if not ctx.thorough else 6
+        k = 0
+        if not ctx.thorough:
+            pending = first
+        else:
+            yield first
+            pending = []
+        while k < n_models:
+            astral = k % 4 == 3
+            rmm = mmg.random_metamodel(rng, prof)
+            if k % 2 == 1:
+                shuffle_cprims(rmm, rng)
+            pending.append((f"random-{k}", rmm, astral))
+            k += 1
+            if len([m for m in pending if m[0].startswith("random-")]) >= group:
+                yield pending
+                pending = []
+        if pending:
+            yield pending
 
-    t0 = _tick(ctx, "generate+real CLI+SDK", t0)
-    stats = {"models": len(models), "schemas": 0, "generator_rejected": 0, "generator_crashed": 0,
+    stats = {"models": 0, "schemas": 0, "generator_rejected": 0, "generator_crashed": 0,
              "sdk_failed": 0, "candidates": 0, "valid_docs": 0, "valid_docs_with_bytes_limits": 0,
              "constraint_mutants": 0, "excluded_byte_mutants": 0, "structural_mutants": 0,
-             "mutants_not_violating": 0, "astral_docs": 0}
+             "mutants_not_violating": 0, "astral_docs": 0, "batches": 0}
     kinds: Dict[str, int] = {}
     features: Dict[str, int] = {}
     nontrivial = []
-    gen_cases, gen_inputs = [], []
-    sem_jobs = []          # (model idx, name, defs term, [(case term, info)], unresolved)
-    struct_jobs, sem_models = [], []
+    n_gen_total, gen_keys, n_sem_total = 0, [], 0
+    for batch_no, models in enumerate(batches()):
+        stats["batches"] += 1
+        stats["models"] += len(models)
+        entries, metas = [], []
+        for name, mm, astral in models:
+            is_corpus = not name.startswith("random-")
+            insts, meta = _instances(mm, rng, 3 if is_corpus else per_class, astral, 14 if is_corpus else 5)
+            entries.append({"model_text": mmg.render_source(mm),
+                            "snippets_jsonschema": mmg.synth_snippets(mm, "jsonschema"),
+                            "snippets_python": mmg.synth_snippets(mm, "python"), "instances": insts})
+            metas.append((insts, meta))
+        results: List[Dict[str, Any]] = []
+        B = 12
+        for k in range(0, len(entries), B):
+            results += lib.impl_call("jsonschema_run.py", {"mode": "build", "models": entries[k:k + B]},
+                                     timeout=3000)
 
-    for idx, ((name, mm, astral), entry, (insts, meta), r) in enumerate(zip(models, entries, metas, results)):
-        for k, v in (mm.features or {}).items():
-            if k.startswith(("shape:", "invariant:", "cprim:")):
-                features[k] = features.get(k, 0) + v
-        model_in = {"model": name, "meta_model_text": entry["model_text"]}
-        if "adapter_error" in r:
-            raise lib.HarnessError(f"adapter failed on {name}: {r['adapter_error']}\n{r.get('traceback')}")
-        if r["frontend"] is None or r["frontend"].get("status") != "ok":
-            # not an accepted meta-model: outside the property
-            if not name.startswith("random-"):
-                raise lib.HarnessError(f"corpus model {name} is not accepted: {r['frontend']}")
-            stats["generator_rejected"] += 1
-            continue
-        js = r["jsonschema"]
-        crashed = js["exception"] is not None
-        if crashed:
-            stats["generator_crashed"] += 1
-            exc = js["exception"]
-            site = "unknown"
-            for line in reversed(exc.get("traceback", "").splitlines()):
-                if ", in " in line and "aas_core_codegen" in line:
-                    site = line.rsplit(", in ", 1)[1].strip()
-                    break
-            if want11:
-                ctx.impl_failure(
-                    f"generator-crash:{exc['class']}:{site}",
-                    f"the JSON-Schema generator raised {exc['class']} on an accepted meta-model (no schema)",
-                    model_in, {"exception": exc["class"], "message": exc["message"][:400]}, "schema",
-                    "aas-core-codegen --target jsonschema on the meta_model_text of this replay")
-        elif js["rc"] != 0:
-            stats["generator_rejected"] += 1
-        # --- generator model vs real definitions -------------------------------------
-        view = r.get("view")
-        schema = None
-        if r.get("schema_text"):
-            schema = json.loads(r["schema_text"])
-        if view and "error" not in view and (schema is not None or crashed):
-            try:
-                real = "None" if schema is None else f"(Some {jg.coq_definitions(schema['definitions'])})"
-                gen_cases.append(lib.coq_pair(jg.coq_view(view), jg.coq_fix_table(view), real))
-                gen_inputs.append((name, entry["model_text"], None if schema is None else schema["definitions"]))
-            except jg.Unsupported as e:
-                ctx.corr_break("generator", model_in, "unsupported by the model", str(e),
-                               "the real schema uses a construct outside the modelled subset")
-        if schema is None:
-            continue
-        stats["schemas"] += 1
-        chk = r["schema_check"]
-        if want11:
-            if chk["check_schema_error"] or chk["declared"] is None or chk["parse_error"]:
-                ctx.impl_failure("schema-invalid", "the schema does not conform to its declared draft",
-                                 model_in, chk, "schema")
-            for ref in chk["unresolved_refs"][:1]:
-                what = "abstract-class-without-concrete-descendants"
-                target = ref.rsplit("/", 1)[-1]
-                c = next((c for c in mm.classes if r["names"]["classes"].get(c.name) == target), None)
-                if not (c is not None and c.is_abstract and not mmg.concrete_descendants(mm, c)):
-                    what = "other"
-                ctx.impl_failure(f"unresolved-ref:{what}", f"$ref {ref} does not resolve",
-                                 model_in, {"unresolved_refs": chk["unresolved_refs"]}, "schema")
-        if r["python"]["rc"] != 0 or r["python"]["exception"] or r["python"].get("import_error"):
-            stats["sdk_failed"] += 1
-            continue
-        names = r["names"]
-        pats: List[str] = []
-        jg.patterns_in(schema, pats)
-        sem_cases = []
-        valid_idx = {}
-        # --- valid documents (C11) ---------------------------------------------------
-        for i, (m, it) in enumerate(zip(meta, r["instances"])):
-            if m["role"] != "valid":
-                continue
-            stats["candidates"] += 1
-            if it["error"] is not None or it["verify"]:
-                continue
-            valid_idx[i] = it
-            stats["valid_docs"] += 1
-            doc = it["doc"]
-            nontrivial.append(lib.stable_key(name, doc))
-            strs: List[str] = []
-            jg.strings_in(doc, strs)
-            if any(ord(ch) > 0xFFFF for s in strs for ch in s):
-                stats["astral_docs"] += 1
-            ref = names["classes"][insts[i]["c"]]
-            accepted = not it["schema_errors"]
-            sem_cases.append((ref, doc, accepted, {"model": name, "doc": _brief(doc), "definition": ref}))
-            if want11 and not accepted:
-                e = it["schema_errors"][0]
-                last = e["path"][-1] if e["path"] else ""
-                astral_here = any(ord(ch) > 0xFFFF for s in strs for ch in s) and e["kw"] in ("pattern", "oneOf", "allOf")
-                suspect = any(
-                    jg._prim_of(mm, t) == "bytearray" and vc.rec_hi is not None
-                    and jg.b64len(len(cont[key_]["b"]) // 2) > vc.rec_hi
-                    for _p, _c, _pr, t, vc, cont, key_, _l in jg._walk(mm, insts[i]))
-                if suspect and e["kw"] in ("maxLength", "oneOf", "allOf"):
-                    key = "valid-rejected:maxLength:bytearray"
-                else:
-                    key = f"valid-rejected:{e['kw']}" + (":astral" if astral_here else "")
-                ctx.impl_failure(
-                    key, "a document produced by the SDK from an instance satisfying all invariants "
-                         f"is rejected by the schema ({e['kw']} at /{'/'.join(e['path'])})",
-                    {**model_in, "instance": insts[i], "document": doc},
-                    {"schema_errors": it["schema_errors"][:3]}, "valid-docs",
-                    "generate schema.json and the Python SDK, build the instance, verify() is empty, "
-                    "to_jsonable(), validate")
-        # --- single-constraint mutants (C12) -----------------------------------------
-        for i, (m, it) in enumerate(zip(meta, r["instances"])):
-            if m["role"] != "mutant" or m["base"] not in valid_idx:
-                continue
-            if it["error"] is not None:
-                continue
-            if not it["verify"]:
-                stats["mutants_not_violating"] += 1
-                continue
-            ref = names["classes"][insts[i]["c"]]
-            accepted = not it["schema_errors"]
-            if not m["expect_reject"]:
-                stats["excluded_byte_mutants"] += 1
-                sem_cases.append((ref, it["doc"], accepted, {"model": name, "doc": _brief(it["doc"])}))
-                continue
-            stats["constraint_mutants"] += 1
-            kk = f"{m['kind']}/{m['origin']}/{m['level']}"
-            kinds[kk] = kinds.get(kk, 0) + 1
-            nontrivial.append(lib.stable_key(name, it["doc"]))
-            sem_cases.append((ref, it["doc"], accepted, {"model": name, "doc": _brief(it["doc"])}))
-            if not want11 and accepted:
-                inherited = m["level"] == "property" and m["origin"] in ("own-class",) and \
-                    m["class"] != m["where"].split(":", 1)[1]
-                ctx.impl_failure(
-                    f"mutant-accepted:{m['kind']}:{m['origin']}",
-                    f"a document whose value at {m['path']} breaks the {m['kind']} constraint "
-                    f"({m['where']}) is accepted by the schema",
-                    {**model_in, "instance": insts[i], "document": it["doc"], "mutation": {
-                        k: m[k] for k in ("kind", "where", "path", "level", "class", "prop")}},
-                    {"sdk_verify": it["verify"][:2], "schema_errors": []}, "constraint-mutants")
-        # --- structural mutants (C12): collected here, validated in one call below ------
-        smut = []
-        for i, it in list(valid_idx.items())[: ctx.n(8, 30)]:
-            for sm in jg.structural_mutants(mm, names, insts[i], it["doc"], rng, 8):
-                sm["ref"] = names["classes"][insts[i]["c"]]
-                sm["valid_document"] = it["doc"]
-                smut.append(sm)
-        struct_jobs.append((idx, name, mm, model_in, schema, smut, sem_cases))
-        sem_models.append((idx, name, schema, pats, chk, model_in, sem_cases))
+        t0 = _tick(ctx, "generate+real CLI+SDK", t0)
+        gen_cases, gen_inputs = [], []
+        sem_jobs = []          # (model idx, name, defs term, [(case term, info)], unresolved)
+        struct_jobs, sem_models = [], []
 
-    if struct_jobs:
-        vr = lib.impl_call("jsonschema_run.py", {"mode": "validate", "jobs": [
-            {"schema": j[4], "docs": [{"doc": sm["doc"], "ref": "#/definitions/" + sm["ref"]} for sm in j[5]]}
-            for j in struct_jobs]}, timeout=1800)
-        for (idx, name, mm, model_in, schema, smut, sem_cases), res in zip(struct_jobs, vr):
-            for sm, errs in zip(smut, res["results"]):
-                stats["structural_mutants"] += 1
-                kinds[sm["kind"]] = kinds.get(sm["kind"], 0) + 1
-                accepted = not errs
-                sem_cases.append((sm["ref"], sm["doc"], accepted, {"model": name, "doc": _brief(sm["doc"])}))
-                if not want11 and accepted:
-                    cls = mm.find_class(sm["class"]) if sm["class"] else None
-                    detail = ""
-                    if sm["kind"] == "missing-modelType" and cls is not None:
-                        has_desc = bool(mmg.concrete_descendants(mm, cls))
-                        root = bool(cls.with_model_type) and not any(
-                            mmg.effective_with_model_type(mm, mm.find_class(b)) for b in cls.bases)
-                        detail = ":leaf-class-declaring-model-type" if (root and not has_desc) else ":other"
+        for idx, ((name, mm, astral), entry, (insts, meta), r) in enumerate(zip(models, entries, metas, results)):
+            for k, v in (mm.features or {}).items():
+                if k.startswith(("shape:", "invariant:", "cprim:")):
+                    features[k] = features.get(k, 0) + v
+            model_in = {"model": name, "meta_model_text": entry["model_text"]}
+            if "adapter_error" in r:
+                raise lib.HarnessError(f"adapter failed on {name}: {r['adapter_error']}\n{r.get('traceback')}")
+            if r["frontend"] is None or r["frontend"].get("status") != "ok":
+                # not an accepted meta-model: outside the property
+                if not name.startswith("random-"):
+                    raise lib.HarnessError(f"corpus model {name} is not accepted: {r['frontend']}")
+                stats["generator_rejected"] += 1
+                continue
+            js = r["jsonschema"]
+            crashed = js["exception"] is not None
+            if crashed:
+                stats["generator_crashed"] += 1
+                exc = js["exception"]
+                site = "unknown"
+                for line in reversed(exc.get("traceback", "").splitlines()):
+                    if ", in " in line and "aas_core_codegen" in line:
+                        site = line.rsplit(", in ", 1)[1].strip()
+                        break
+                if want11:
                     ctx.impl_failure(
-                        f"mutant-accepted:{sm['kind']}{detail}",
-                        f"a document with a {sm['kind']} at /{'/'.join(map(str, sm['path']))} is accepted",
-                        {**model_in, "valid_document": sm["valid_document"], "document": sm["doc"],
-                         "mutation": {k: sm[k] for k in ("kind", "path", "class") if k in sm}},
-                        {"schema_errors": []}, "structural-mutants")
+                        f"generator-crash:{exc['class']}:{site}",
+                        f"the JSON-Schema generator raised {exc['class']} on an accepted meta-model (no schema)",
+                        model_in, {"exception": exc["class"], "message": exc["message"][:400]}, "schema",
+                        "aas-core-codegen --target jsonschema on the meta_model_text of this replay")
+            elif js["rc"] != 0:
+                stats["generator_rejected"] += 1
+            # --- generator model vs real definitions -------------------------------------
+            view = r.get("view")
+            schema = None
+            if r.get("schema_text"):
+                schema = json.loads(r["schema_text"])
+            if view and "error" not in view and (schema is not None or crashed):
+                try:
+                    real = "None" if schema is None else f"(Some {jg.coq_definitions(schema['definitions'])})"
+                    gen_cases.append(lib.coq_pair(jg.coq_view(view), jg.coq_fix_table(view), real))
+                    gen_inputs.append((name, entry["model_text"], None if schema is None else schema["definitions"]))
+                except jg.Unsupported as e:
+                    ctx.corr_break("generator", model_in, "unsupported by the model", str(e),
+                                   "the real schema uses a construct outside the modelled subset")
+            if schema is None:
+                continue
+            stats["schemas"] += 1
+            chk = r["schema_check"]
+            if want11:
+                if chk["check_schema_error"] or chk["declared"] is None or chk["parse_error"]:
+                    ctx.impl_failure("schema-invalid", "the schema does not conform to its declared draft",
+                                     model_in, chk, "schema")
+                for ref in chk["unresolved_refs"][:1]:
+                    what = "abstract-class-without-concrete-descendants"
+                    target = ref.rsplit("/", 1)[-1]
+                    c = next((c for c in mm.classes if r["names"]["classes"].get(c.name) == target), None)
+                    if not (c is not None and c.is_abstract and not mmg.concrete_descendants(mm, c)):
+                        what = "other"
+                    ctx.impl_failure(f"unresolved-ref:{what}", f"$ref {ref} does not resolve",
+                                     model_in, {"unresolved_refs": chk["unresolved_refs"]}, "schema")
+            if r["python"]["rc"] != 0 or r["python"]["exception"] or r["python"].get("import_error"):
+                stats["sdk_failed"] += 1
+                continue
+            names = r["names"]
+            pats: List[str] = []
+            jg.patterns_in(schema, pats)
+            sem_cases = []
+            valid_idx = {}
+            # --- valid documents (C11) ---------------------------------------------------
+            for i, (m, it) in enumerate(zip(meta, r["instances"])):
+                if m["role"] != "valid":
+                    continue
+                stats["candidates"] += 1
+                if it["error"] is not None or it["verify"]:
+                    continue
+                valid_idx[i] = it
+                stats["valid_docs"] += 1
+                doc = it["doc"]
+                nontrivial.append(lib.stable_key(name, doc))
+                strs: List[str] = []
+                jg.strings_in(doc, strs)
+                if any(ord(ch) > 0xFFFF for s in strs for ch in s):
+                    stats["astral_docs"] += 1
+                ref = names["classes"][insts[i]["c"]]
+                accepted = not it["schema_errors"]
+                sem_cases.append((ref, doc, accepted, {"model": name, "doc": _brief(doc), "definition": ref}))
+                if want11 and not accepted:
+                    e = it["schema_errors"][0]
+                    last = e["path"][-1] if e["path"] else ""
+                    astral_here = any(ord(ch) > 0xFFFF for s in strs for ch in s) and e["kw"] in ("pattern", "oneOf", "allOf")
+                    suspect = any(
+                        jg._prim_of(mm, t) == "bytearray" and vc.rec_hi is not None
+                        and jg.b64len(len(cont[key_]["b"]) // 2) > vc.rec_hi
+                        for _p, _c, _pr, t, vc, cont, key_, _l in jg._walk(mm, insts[i]))
+                    if suspect and e["kw"] in ("maxLength", "oneOf", "allOf"):
+                        key = "valid-rejected:maxLength:bytearray"
+                    else:
+                        key = f"valid-rejected:{e['kw']}" + (":astral" if astral_here else "")
+                    ctx.impl_failure(
+                        key, "a document produced by the SDK from an instance satisfying all invariants "
+                             f"is rejected by the schema ({e['kw']} at /{'/'.join(e['path'])})",
+                        {**model_in, "instance": insts[i], "document": doc},
+                        {"schema_errors": it["schema_errors"][:3]}, "valid-docs",
+                        "generate schema.json and the Python SDK, build the instance, verify() is empty, "
+                        "to_jsonable(), validate")
+            # --- single-constraint mutants (C12) -----------------------------------------
+            for i, (m, it) in enumerate(zip(meta, r["instances"])):
+                if m["role"] != "mutant" or m["base"] not in valid_idx:
+                    continue
+                if it["error"] is not None:
+                    continue
+                if not it["verify"]:
+                    stats["mutants_not_violating"] += 1
+                    continue
+                ref = names["classes"][insts[i]["c"]]
+                accepted = not it["schema_errors"]
+                if not m["expect_reject"]:
+                    stats["excluded_byte_mutants"] += 1
+                    sem_cases.append((ref, it["doc"], accepted, {"model": name, "doc": _brief(it["doc"])}))
+                    continue
+                stats["constraint_mutants"] += 1
+                kk = f"{m['kind']}/{m['origin']}/{m['level']}"
+                kinds[kk] = kinds.get(kk, 0) + 1
+                nontrivial.append(lib.stable_key(name, it["doc"]))
+                sem_cases.append((ref, it["doc"], accepted, {"model": name, "doc": _brief(it["doc"])}))
+                if not want11 and accepted:
+                    inherited = m["level"] == "property" and m["origin"] in ("own-class",) and \
+                        m["class"] != m["where"].split(":", 1)[1]
+                    ctx.impl_failure(
+                        f"mutant-accepted:{m['kind']}:{m['origin']}",
+                        f"a document whose value at {m['path']} breaks the {m['kind']} constraint "
+                        f"({m['where']}) is accepted by the schema",
+                        {**model_in, "instance": insts[i], "document": it["doc"], "mutation": {
+                            k: m[k] for k in ("kind", "where", "path", "level", "class", "prop")}},
+                        {"sdk_verify": it["verify"][:2], "schema_errors": []}, "constraint-mutants")
+            # --- structural mutants (C12): collected here, validated in one call below ------
+            smut = []
+            for i, it in list(valid_idx.items())[: ctx.n(8, 16)]:
+                for sm in jg.structural_mutants(mm, names, insts[i], it["doc"], rng, 8):
+                    sm["ref"] = names["classes"][insts[i]["c"]]
+                    sm["valid_document"] = it["doc"]
+                    smut.append(sm)
+            struct_jobs.append((idx, name, mm, model_in, schema, smut, sem_cases))
+            sem_models.append((idx, name, schema, pats, chk, model_in, sem_cases))
 
-    for idx, name, schema, pats, chk, model_in, sem_cases in sem_models:
-        if sem_cases:
-            try:
-                defs_term = jg.coq_definitions(schema["definitions"])
-                limit = ctx.n(25, 120)
-                picked = sem_cases if len(sem_cases) <= limit else rng.sample(sem_cases, limit)
-                terms = [(lib.coq_pair(jg._t(ref), jg.coq_json(doc), jg.search_table(pats, doc),
-                                       lib.coq_bool(acc)), info) for ref, doc, acc, info in picked]
-                sem_jobs.append((idx, name, defs_term, terms, bool(chk["unresolved_refs"])))
-            except jg.Unsupported as e:
-                ctx.corr_break("semantics", model_in, "unsupported by the model", str(e))
+        if struct_jobs:
+            vr = lib.impl_call("jsonschema_run.py", {"mode": "validate", "jobs": [
+                {"schema": j[4], "docs": [{"doc": sm["doc"], "ref": "#/definitions/" + sm["ref"]} for sm in j[5]]}
+                for j in struct_jobs]}, timeout=1800)
+            for (idx, name, mm, model_in, schema, smut, sem_cases), res in zip(struct_jobs, vr):
+                for sm, errs in zip(smut, res["results"]):
+                    stats["structural_mutants"] += 1
+                    kinds[sm["kind"]] = kinds.get(sm["kind"], 0) + 1
+                    accepted = not errs
+                    sem_cases.append((sm["ref"], sm["doc"], accepted, {"model": name, "doc": _brief(sm["doc"])}))
+                    if not want11 and accepted:
+                        cls = mm.find_class(sm["class"]) if sm["class"] else None
+                        detail = ""
+                        if sm["kind"] == "missing-modelType" and cls is not None:
+                            has_desc = bool(mmg.concrete_descendants(mm, cls))
+                            root = bool(cls.with_model_type) and not any(
+                                mmg.effective_with_model_type(mm, mm.find_class(b)) for b in cls.bases)
+                            detail = ":leaf-class-declaring-model-type" if (root and not has_desc) else ":other"
+                        ctx.impl_failure(
+                            f"mutant-accepted:{sm['kind']}{detail}",
+                            f"a document with a {sm['kind']} at /{'/'.join(map(str, sm['path']))} is accepted",
+                            {**model_in, "valid_document": sm["valid_document"], "document": sm["doc"],
+                             "mutation": {k: sm[k] for k in ("kind", "path", "class") if k in sm}},
+                            {"schema_errors": []}, "structural-mutants")
 
-    t0 = _tick(ctx, "oracles+structural validation", t0)
-    # --- in-Coq correspondence: generator model ------------------------------------------
-    bad, _ = lib.run_cases(ctx.work, "gen", GEN_HEADER, GEN_TYPE, "bad", gen_cases, shard=max(6, (len(gen_cases) + 3) // 4))
-    for i in bad[:6]:
-        name, text, real = gen_inputs[i]
-        ctx.corr_break("generator", {"model": name, "meta_model_text": text},
-                       "Model/JsonSchemaGen.gen disagrees (normalised definitions differ)",
-                       _brief(real, 3000))
-    ctx.count("generator", len(gen_cases), nontrivial_keys=[lib.stable_key(g[1]) for g in gen_inputs],
-              validated=len(gen_cases))
-    t0 = _tick(ctx, "coq generator correspondence", t0)
-    # --- in-Coq correspondence: validation semantics -------------------------------------
-    n_sem = 0
-    if sem_jobs:
-        header = (SEM_HEADER + "Definition all_defs : list (list (text * schema)) := [\n"
-                  + ";\n".join(j[2] for j in sem_jobs) + "\n].\n" + SEM_TAIL)
-        flat = []
-        for k, (_idx, _name, _defs, terms, _u) in enumerate(sem_jobs):
-            for t, info in terms:
-                flat.append((f"({k}%nat, " + t[1:], info))
-        n_sem = len(flat)
-        bad, _ = lib.run_cases(ctx.work, "sem", header, SEM_TYPE, "bad", [t for t, _ in flat],
-                               shard=max(60, (len(flat) + 7) // 8))
+        for idx, name, schema, pats, chk, model_in, sem_cases in sem_models:
+            if sem_cases:
+                try:
+                    defs_term = jg.coq_definitions(schema["definitions"])
+                    limit = ctx.n(25, 60)
+                    picked = sem_cases if len(sem_cases) <= limit else rng.sample(sem_cases, limit)
+                    terms = [(lib.coq_pair(jg._t(ref), jg.coq_json(doc), jg.search_table(pats, doc),
+                                           lib.coq_bool(acc)), info) for ref, doc, acc, info in picked]
+                    sem_jobs.append((idx, name, defs_term, terms, bool(chk["unresolved_refs"])))
+                except jg.Unsupported as e:
+                    ctx.corr_break("semantics", model_in, "unsupported by the model", str(e))
+
+        t0 = _tick(ctx, "oracles+structural validation", t0)
+        # --- in-Coq correspondence: generator model ------------------------------------------
+        bad, _ = lib.run_cases(ctx.work, "gen", GEN_HEADER, GEN_TYPE, "bad", gen_cases, shard=max(3, (len(gen_cases) + 3) // 4))
         for i in bad[:6]:
-            ctx.corr_break("semantics", flat[i][1], "Model/JsonSchemaSem.validates disagrees",
-                           "verdict of the jsonschema package differs")
-    t0 = _tick(ctx, "coq semantics correspondence", t0)
-    ctx.count("semantics", n_sem, validated=n_sem)
+            name, text, real = gen_inputs[i]
+            ctx.corr_break("generator", {"model": name, "meta_model_text": text},
+                           "Model/JsonSchemaGen.gen disagrees (normalised definitions differ)",
+                           _brief(real, 3000))
+        n_gen_total += len(gen_cases)
+        gen_keys += [lib.stable_key(g[1]) for g in gen_inputs]
+        _cleanup(ctx, "gen", bool(bad))
+        t0 = _tick(ctx, "coq generator correspondence", t0)
+        # --- in-Coq correspondence: validation semantics -------------------------------------
+        n_sem = 0
+        if sem_jobs:
+            header = (SEM_HEADER + "Definition all_defs : list (list (text * schema)) := [\n"
+                      + ";\n".join(j[2] for j in sem_jobs) + "\n].\n" + SEM_TAIL)
+            flat = []
+            for k, (_idx, _name, _defs, terms, _u) in enumerate(sem_jobs):
+                for t, info in terms:
+                    flat.append((f"({k}%nat, " + t[1:], info))
+            # bound the size of a cases file (coqc memory grows with the size of the terms):
+            # very large documents stay with the oracle only
+            kept = [(t, info) for t, info in flat if len(t) <= 120_000]
+            stats["sem_skipped_large"] = stats.get("sem_skipped_large", 0) + len(flat) - len(kept)
+            flat = kept
+            n_sem = len(flat)
+            total = sum(len(t) for t, _ in flat) + 1
+            n_files = max(4 if not ctx.thorough else 1, -(-total // 2_000_000))
+            bad, _ = lib.run_cases(ctx.work, "sem", header, SEM_TYPE, "bad", [t for t, _ in flat],
+                                   shard=max(1, -(-len(flat) // n_files)))
+            for i in bad[:6]:
+                ctx.corr_break("semantics", flat[i][1], "Model/JsonSchemaSem.validates disagrees",
+                               "verdict of the jsonschema package differs")
+            _cleanup(ctx, "sem", bool(bad))
+            n_sem_total += n_sem
+            del flat, header
+        t0 = _tick(ctx, "coq semantics correspondence", t0)
+        if batch_no == 0:
+            for (name, mm, _a), r in list(zip(models, results))[:2]:
+                ctx.sample({"model": name, "classes": [c.name for c in mm.classes],
+                            "schema_definitions": sorted(json.loads(r["schema_text"])["definitions"])
+                            if r.get("schema_text") else None})
+        del entries, metas, results, gen_cases, gen_inputs, sem_jobs, struct_jobs, sem_models
+    ctx.count("generator", n_gen_total, nontrivial_keys=gen_keys, validated=n_gen_total)
+    ctx.count("semantics", n_sem_total, validated=n_sem_total)
     ctx.count("documents", stats["valid_docs"] + stats["constraint_mutants"] + stats["structural_mutants"],
               nontrivial_keys=nontrivial, validated=stats["valid_docs"], **stats,
               mutant_kinds=kinds, meta_model_features=features)
-    for (name, mm, _a), r in list(zip(models, results))[:2]:
-        ctx.sample({"model": name, "classes": [c.name for c in mm.classes],
-                    "schema_definitions": sorted(json.loads(r["schema_text"])["definitions"]) if r.get("schema_text") else None})
     under = []
     if stats["valid_docs"] < 20:
         under.append("valid documents")
